@@ -114,6 +114,8 @@ def run(chk):
     tres = chk.run_cases(SCEN_E1, thr, sched=True)
     chk.account(asrv, tres, 'E1-detsched+cooploop')
     chk.collect_monitors(tres, props, keyfn)
+    _validate(chk, asrv, [(c, r) for c, r in tres if c['kind'] in asrv.VALIDATED_KINDS],
+              'E1 AsyncServer.stream / AsyncParmapper(thread) vs drv afifo')
     chk.cov.setdefault('suites', {})['E1 AsyncServer.stream/call vs Server.stream/call, AsyncParmapper(thread) vs Stream.parmap'] = \
         dict(cases=len(tres), by_kind={k: sum(1 for c in thr if c['kind'] == k) for k in ('srv_stream', 'srv_call', 'apmap_thread', 'pmap_async')})
     for case, res in results:
@@ -128,17 +130,26 @@ def run(chk):
     chk.cov['distribution'] = _distribution(e2 + thr)
     if chk.corr_breaks and not chk.violations:
         # a correspondence break without a monitor hit: look for a failing input around it
-        more = []
+        more, more1 = [], []
         for b in chk.corr_breaks[:10]:
             for _ in range(60):
                 c = dict(b['case'])
-                c['dur'] = [chk.rng.choice([0, 1, 2, 3, 5, 9]) for _ in c['dur']]
                 c['seed'] = chk.rng.randrange(1 << 30)
-                more.append(c)
+                if c['kind'] in ('afifo', 'apmap'):
+                    c['dur'] = [chk.rng.choice([0, 1, 2, 3, 5, 9]) for _ in c['dur']]
+                    more.append(c)
+                else:
+                    c['chooser'] = list(chk.rng.choice([('random', 0.0), ('sticky', 0.2, 0.0), ('pct', 3, 600, 0.0)]))
+                    more1.append(c)
         more += [scen.gen_case(chk.rng, chk.tier, chk.rng.choice(['pre', 'order', 'stop', 'src'])) for _ in range(600)]
         mres = chk.run_cases(SCEN, more, sched=False)
         chk.account(scen, mres, 'E2-vloop')
         chk.collect_monitors(mres, props, keyfn)
+        if more1:
+            mres1 = chk.run_cases(SCEN_E1, more1, sched=True)
+            chk.account(asrv, mres1, 'E1-detsched+cooploop')
+            chk.collect_monitors(mres1, props, keyfn)
+            more += more1
         chk.notes.append(f'correspondence broke on {len(chk.corr_breaks)} cases; escalated search over {len(more)} more cases')
     chk.cov['rule'] = (
         'cases = boundary list (first/middle/last/all elements rejected, empty and 1-element inputs, failing and '
@@ -176,9 +187,9 @@ TRUSTED = [
     'modelled not verified: asyncio.Queue is FIFO with maxsize slots; awaiting a done task/future returns its own outcome; '
     'Task.cancel() succeeds on every task that is not done; a worker coroutine does not swallow CancelledError',
     'deterministic scheduler harness/detsched.py + cooperative-selector event loop harness/cooploop.py for the '
-    'thread-mixing variants (AsyncServer.stream/call vs Server.stream/call with a thread servlet, AsyncParmapper vs '
-    'Stream.parmap): monitors only (async == sync == spec on explored schedules); in Lean they are covered through '
-    'the theorems about async_fifo_stream / fifo_stream, to which they delegate with a different `func` '
+    'thread-mixing variants: AsyncServer.stream and AsyncParmapper(thread) are trace-validated against the same Lean '
+    'model (their awaitables are plain futures: model action drainDetach) and compared with Server.stream / '
+    'Stream.parmap; AsyncServer.call vs Server.call and ParmapperAsync vs Stream.parmap: monitors only '
     '(the servers\' own request ledger is the subject of C02)',
     'process servlets / process executors are not run by this check (OS schedule); same code path above the executor',
 ]
